@@ -718,6 +718,9 @@ class PooledJSONRPCServer(socketserver.ThreadingMixIn, SimpleJSONRPCServer):
             SimpleJSONRPCServer.shutdown(self)
 
         SimpleJSONRPCServer.server_close(self)
+
+        # Let the requests already accepted be handled, then stop the pool
+        self.__request_pool.join()
         self.__request_pool.stop()
 
 
